@@ -85,8 +85,56 @@ def ref_shuffle(seq, **kw):
     return [seq[i] for i in perms[c]]
 
 
+def ref_mean_squared_error(y_true, y_pred, **kw):
+    """sklearn.metrics.mean_squared_error (documented formula for 1-D / column targets): mean((y_true - y_pred)**2)."""
+    a = [v for v in _np.asarray(y_true, dtype=object).flat]
+    b = [v for v in _np.asarray(y_pred, dtype=object).flat]
+    if len(a) != len(b):
+        raise ValueError('Found input variables with inconsistent numbers of samples: [%d, %d]' % (len(a), len(b)))
+    tot = 0
+    for u, v in zip(a, b):
+        tot = tot + (u - v) * (u - v)
+    return tot / len(a)
+
+
+MSE_HOOK = [None]
+
+
+class _Metrics(types.ModuleType):
+    def __init__(self):
+        super().__init__('sklearn_metrics_facade')
+
+    @staticmethod
+    def mean_squared_error(y_true, y_pred, **kw):
+        if MSE_HOOK[0] is not None:
+            return MSE_HOOK[0](y_true, y_pred)
+        return ref_mean_squared_error(y_true, y_pred, **kw)
+
+    def __getattr__(self, name):
+        import sklearn.metrics
+        return getattr(sklearn.metrics, name)
+
+
+class _Sklearn(types.ModuleType):
+    def __init__(self):
+        super().__init__('sklearn_facade')
+        self.metrics = _Metrics()
+        self.preprocessing = PREPROCESSING
+
+    def __getattr__(self, name):
+        import sklearn
+        import importlib
+        try:
+            return getattr(sklearn, name)
+        except AttributeError:
+            return importlib.import_module('sklearn.' + name)
+
+
+SKLEARN = _Sklearn()
+
+
 def ml_shims():
-    return [(None, 'preprocessing', PREPROCESSING), ('sparseSpACE.DEMachineLearning', 'shuffle', ref_shuffle)]
+    return [(None, 'preprocessing', PREPROCESSING), ('sparseSpACE.DEMachineLearning', 'shuffle', ref_shuffle), ('sparseSpACE.GridOperation', 'sklearn', SKLEARN)]
 
 
 def validate():
@@ -114,4 +162,10 @@ def validate():
             mine = type(e).__name__
         if (real is None) != (mine is None):
             raise RuntimeError('MinMaxScaler stub parameter validation differs from sklearn: %r vs %r' % (real, mine))
+    from sklearn.metrics import mean_squared_error
+    for _ in range(3):
+        a, b = rng.rand(5), rng.rand(5)
+        if abs(mean_squared_error(a, b) - float(ref_mean_squared_error(a, b))) > 1e-12 or \
+                abs(mean_squared_error(a, b.reshape(5, 1)) - float(ref_mean_squared_error(a, b.reshape(5, 1)))) > 1e-12:
+            raise RuntimeError('mean_squared_error stub disagrees with sklearn')
     return True
